@@ -58,6 +58,9 @@ def main():
                 tname = "seed_demo_%s" % name.lower()
                 os.makedirs(os.path.join(wt, "tests"), exist_ok=True)
                 shutil.copy(os.path.join(d, "demo.rs"), os.path.join(wt, "tests", tname + ".rs"))
+                if "similari_verif" in open(os.path.join(d, "demo.rs")).read():
+                    # the demonstration forces a schedule through the cfg(similari_verif) hooks
+                    env = dict(env, RUSTFLAGS="--cfg similari_verif -C target-cpu=x86-64-v3", CARGO_TARGET_DIR="/tmp/wt_target_%s_verif" % name)
                 rc1, out1 = sh("cargo test --offline --test %s 2>&1 | tail -15" % tname, cwd=wt, env=env)
                 fails_with = "test result: FAILED" in out1 or "panicked" in out1
                 sh("git apply -R %s" % os.path.join(d, "patch.diff"), cwd=wt)
@@ -88,6 +91,7 @@ def main():
         if not a.keep:
             sh("git -C /repo worktree remove --force %s" % wt)
             shutil.rmtree("/tmp/wt_target_%s" % name, ignore_errors=True)
+            shutil.rmtree("/tmp/wt_target_%s_verif" % name, ignore_errors=True)
             alt = os.path.join(ROOT, ".cache", "alt", hashlib.sha256(os.path.realpath(wt).encode()).hexdigest()[:12])
             shutil.rmtree(alt, ignore_errors=True)
     print(json.dumps(res, indent=1)[:1500])
